@@ -326,6 +326,83 @@ func wellFormed(v reflect.Value, depth int) string {
 	return ""
 }
 
+// c07NullElems: the slice decoders build their result in pooled scratch arrays that still hold the
+// elements of earlier documents. A null element (and an element beyond the earlier length) must
+// come out as the zero value of its kind, not as what an earlier document left there: after a
+// document with non-empty elements, documents with nulls at every index, into fresh destinations.
+func c07NullElems(c *rt.Ctx, sub0 int) {
+	type st struct {
+		S string
+		P *int
+		L []string
+	}
+	elems := []struct {
+		t   reflect.Type
+		val string
+	}{
+		{reflect.TypeOf(""), `"hello world"`}, {reflect.TypeOf(gojson.Number("")), `12345.5`}, {reflect.TypeOf(c07NamedStr("")), `"named"`},
+		{reflect.TypeOf([]byte(nil)), `"aGVsbG8="`}, {reflect.TypeOf((*int)(nil)), `7`}, {reflect.TypeOf(map[string]int(nil)), `{"k":1}`},
+		{reflect.TypeOf([]int(nil)), `[1,2,3]`}, {reflect.TypeOf((*any)(nil)).Elem(), `"in-iface"`}, {reflect.TypeOf(st{}), `{"S":"sss","P":3,"L":["a","b"]}`},
+		{reflect.TypeOf((*string)(nil)), `"ptr-to-string"`}, {reflect.TypeOf(zoo.UTS("")), `"text"`},
+	}
+	rep := func(v string, n int) string { return "[" + strings.TrimSuffix(strings.Repeat(v+",", n), ",") + "]" }
+	sub := sub0
+	for _, el := range elems {
+		t := reflect.SliceOf(el.t)
+		docs := []string{rep(el.val, 6), rep("null", 7), "[" + el.val + ",null," + el.val + ",null,null,null,null,null," + el.val + "]", rep("null", 2), rep(el.val, 3)}
+		for _, holder := range []bool{false, true} {
+			dt := t
+			wrap := func(d string) string { return d }
+			if holder {
+				dt = reflect.StructOf([]reflect.StructField{{Name: "A", Type: reflect.TypeOf(0)}, {Name: "V", Type: t}, {Name: "Z", Type: reflect.TypeOf("")}})
+				wrap = func(d string) string { return `{"A":1,"V":` + d + `,"Z":"z"}` }
+			}
+			sub++
+			if !c.Cur(sub, "shapes=core\nnull elements after longer documents: "+dt.String()) {
+				continue
+			}
+			for _, stream := range []bool{false, true} {
+				for di, d := range docs {
+					doc := wrap(d)
+					g, sd := reflect.New(dt), reflect.New(dt)
+					var err error
+					pan, msg, _ := rt.Guard(func() {
+						if stream {
+							err = gojson.NewDecoder(strings.NewReader(doc)).Decode(g.Interface())
+						} else {
+							err = gojson.Unmarshal([]byte(doc), g.Interface())
+						}
+					})
+					c.Eval(1)
+					if pan {
+						c.Obs("panics_seen_judged_by_C06", 1)
+						_ = msg
+						continue
+					}
+					serr := stdjson.Unmarshal([]byte(doc), sd.Interface())
+					bad := ""
+					pan, msg, _ = rt.Guard(func() { bad = wellFormed(g.Elem(), 0) })
+					if pan {
+						bad = "walking the destination panicked: " + msg
+					}
+					if bad == "" && err == nil && serr == nil && !reflect.DeepEqual(g.Elem().Interface(), sd.Elem().Interface()) {
+						gb, _ := stdjson.Marshal(g.Elem().Interface())
+						sb, _ := stdjson.Marshal(sd.Elem().Interface())
+						bad = fmt.Sprintf("value %s, encoding/json %s", gb, sb)
+					}
+					if bad != "" {
+						c.Violate(rt.Violation{Monitor: "well-formed", Entry: map[bool]string{false: "Unmarshal", true: "Decoder"}[stream], Kind: "stale-scratch-element", Ctx: "elem:" + el.t.Kind().String(),
+							Detail: fmt.Sprintf("%s, document #%d %s after the earlier ones: %s", dt, di, doc, bad), Sub: sub})
+						break
+					}
+				}
+			}
+			c.Obs("null_element_histories", 1)
+			c.NonTrivial("nullelems", dt.String())
+		}
+	}
+}
+
 func ifaceTableOK(v reflect.Value) (msg string) {
 	defer func() {
 		if r := recover(); r != nil {
@@ -1196,6 +1273,9 @@ func init() {
 				}
 				if k == 11 && c.Idx%64 == 6 {
 					c07NilIfaces(c, 950000)
+				}
+				if k == 11 && c.Idx%64 == 7 {
+					c07NullElems(c, 960000)
 				}
 				if k == 0 {
 					c.Sample(map[string]any{"type": t.String(), "docs": len(docs), "example_doc": docs[len(docs)/2][0], "fields": descs})
